@@ -79,6 +79,7 @@ fn main() {
         ("pathcodec", "replay") => codec::path_replay(&args, &mut s),
         ("encoder", "relations") => relations::encoder_relations(&args, &mut s),
         ("encoder", "trace") => relations::encoder_trace(&args, &mut s),
+        ("c07", "relations") => relations::c07_relations(&args, &mut s),
         ("timingcodec", "replay") => codec::timing_replay(&args, &mut s),
         ("edits", "replay") => edits::text_replay(&args, &mut s),
         ("edits", "relations") => edits::relations(&args, &mut s),
